@@ -603,6 +603,9 @@ func cmdCheck(args []string) int {
 	os.WriteFile(filepath.Join(outDir, "obligations.json"), bs, 0o644)
 	fmt.Printf("%s: %d/%d obligations discharged, %d vacuity covers ok, %d functions, %.1fs\n", id, discharged, total, coversOK, len(keys), time.Since(t0).Seconds())
 	if thorough != nil {
+		if stale, _ := thorough["selftest_stale_patch_does_not_apply"].([]string); len(stale) > 0 {
+			fmt.Printf("NOTE: %d seeded change(s) of the must-fail corpus do not apply to this tree any more and were skipped: %v\n", len(stale), stale)
+		}
 		if missed, _ := thorough["selftest_missed"].([]string); len(missed) > 0 {
 			fmt.Printf("SELFTEST-FAILED: seeded changes no longer detected by %s: %v (the machinery is weaker than recorded; not a verdict about the repository)\n", id, missed)
 			return 2
